@@ -1,0 +1,24 @@
+//go:build verif
+
+package structs
+
+// Frame-only ASSUMED contracts of the expression evaluator used by verified
+// pipeline processors (C06): evaluating a boolean expression over a row reads
+// the expression tree and the row and changes neither the processor nor the
+// batch.  The evaluator itself (string/regex/number semantics) is outside the
+// verified slice.  Comment-only file.
+
+//@ func (*BoolExpr).EvaluateWithNull
+//@   assumed
+//@   pure
+//@ end
+
+//@ func (*BoolExpr).GetNullFields
+//@   assumed
+//@   pure
+//@ end
+
+//@ func (*BoolExpr).GetFields
+//@   assumed
+//@   pure
+//@ end
